@@ -4,7 +4,8 @@
     they compute (i) model = observation, (ii) the property predicate
     [trace_ok] on the IMPLEMENTATION's calls, (iii) the finding guards that fire
     on the history. *)
-From HV Require Export Base.Prelude C18.Model C18.ModelBlob C18.ModelK8s C18.Spec C18.Proofs C18.ProofsBlob C18.ProofsK8s.
+From HV Require Export Base.Prelude C18.Model C18.ModelBlob C18.ModelK8s C18.Spec C18.Proofs C18.ProofsBlob C18.ProofsK8s
+  C18.Accept C18.AcceptProviders.
 
 (** the processor oracle of a case: contents it rejects, sources whose deletion it refuses *)
 Definition mk_oracle (rej : list cid) (undel : list nat) : oracle :=
@@ -24,7 +25,7 @@ Definition ostep_eqb (a b : ostep) : bool :=
 
 Definition no_panic (l : list ostep) : bool := negb (existsb o_panic l).
 
-Definition snapshot (k : states) (n : nat) : list (option cid) := map k (seq 0 n).
+(* [snapshot] (stored hashes of sources 0..n-1) comes from C18.AcceptProviders *)
 
 Definition to_ostep (n : nat) (h : hres) : ostep :=
   {| o_calls := h_calls h; o_err := h_err h; o_known := snapshot (h_st h) n; o_panic := false |}.
@@ -183,85 +184,37 @@ Definition blc nb nk rej undel h o := {| bc_nb := nb; bc_nk := nk; bc_rej := rej
 
 (** ** HTTP endpoint / cloud blob provider -> real processor -> real repository, with route conflicts *)
 
-(** Contents of one conflict class share a path; the repository refuses a rule set whose path is held by ANOTHER
-    source.  Whether a content can be applied therefore depends on what is loaded. *)
-Definition pclass (c : cid) : nat := Nat.modulo (c - 1) 4.
-
-Definition dyn_oracle (rej : list cid) (A : amap) (self : sid) (srcs : list sid) : oracle :=
-  {| accepts := fun c => negb (existsb (Nat.eqb c) rej) &&
-                         forallb (fun t => sid_eqb t self ||
-                                           match A t with Some d => negb (Nat.eqb (pclass d) (pclass c)) | None => true end) srcs;
-     deletable := fun _ => true |}.
-
-Record rstep := { r_calls : list pcall; r_known : list (option cid); r_repo : list (option cid) }.
-
-Definition rstep_eqb (a b : rstep) : bool :=
-  list_eqb pcall_eqb (r_calls a) (r_calls b) && list_eqb (option_eqb Nat.eqb) (r_known a) (r_known b) &&
-  list_eqb (option_eqb Nat.eqb) (r_repo a) (r_repo b).
-
-(** THE SPECIFICATION for these streams, on what is loaded (no stored hashes, no calls): a look at a source that
-    shows it gone unloads it; invalid content keeps what is loaded; a valid content other than the loaded one is
-    loaded iff it can be applied NOW (acceptable in itself and not competing with what other sources have loaded) —
-    otherwise the previous version stays, and since every poll looks again, it is applied as soon as it can be. *)
-Definition spec_look (rej : list cid) (srcs : list sid) (A : amap) (so : sid * sobs) : amap :=
-  let s := fst so in
-  match snd so with
-  | SGone => a_set A s None
-  | SNew c => if option_eqb Nat.eqb (A s) (Some c) then A
-              else if accepts (dyn_oracle rej A s srcs) c then a_set A s (Some c) else A
-  | SBad | SNone => A
-  end.
-
-Fixpoint spec_repo_steps (rej : list cid) (srcs : list sid) (A : amap) (views : list (list (sid * sobs)))
-  : list (list (option cid)) :=
-  match views with
-  | [] => []
-  | v :: r => let A' := fold_left (spec_look rej srcs) v A in map A' srcs :: spec_repo_steps rej srcs A' r
-  end.
+(** Contents of one conflict class share a path ([pclass], [pclash] of C18/Accept.v); the repository refuses a rule set
+    whose path is held by ANOTHER source.  Whether a content can be applied therefore depends on what is loaded.
+    Everything these two evaluators use is what the theorems C18_accept_* / C18_http_accept_* / C18_blob_accept_* are
+    about: the processor [dyn_oracle], THE SPECIFICATION [spec_look] / [spec_repo_steps] (C18/Accept.v) and the runs
+    [http_real_steps] / [blob_real_steps] of the provider models against that processor (C18/AcceptProviders.v), here
+    with [ok0 := ok_rej rej] and [clash := pclash]. *)
 
 Record hreal_case := { hr_n : nat; hr_rej : list cid; hr_hist : list http_event; hr_obs : list rstep }.
-
-Fixpoint http_real_steps (rej : list cid) (srcs : list sid) (n : nat) (k : states) (A : amap) (h : list http_event) : list rstep :=
-  match h with
-  | [] => []
-  | er :: rest =>
-    let x := http_watch (dyn_oracle rej A (Sid (fst er)) srcs) k (fst er) (snd er) in
-    let A' := apply_calls A (h_calls x) in
-    {| r_calls := h_calls x; r_known := snapshot (h_st x) n; r_repo := map A' srcs |}
-      :: http_real_steps rej srcs n (h_st x) A' rest
-  end.
 
 Definition check_hreal (c : hreal_case) : verdict :=
   let srcs := map Sid (seq 0 (hr_n c)) in
   let lo := list_eqb (list_eqb (option_eqb Nat.eqb)) in
   let repo := map r_repo (hr_obs c) in
-  {| v_corr := list_eqb rstep_eqb (http_real_steps (hr_rej c) srcs (hr_n c) st_empty a_empty (hr_hist c)) (hr_obs c);
-     v_prop := lo (spec_repo_steps (hr_rej c) srcs a_empty (http_views_r true (hr_hist c))) repo ||
-               lo (spec_repo_steps (hr_rej c) srcs a_empty (http_views_r false (hr_hist c))) repo;
+  let ok := ok_rej (hr_rej c) in
+  {| v_corr := list_eqb rstep_eqb (http_real_steps ok pclash srcs (hr_n c) st_empty a_empty (hr_hist c)) (hr_obs c);
+     v_prop := lo (spec_repo_steps ok pclash srcs a_empty (http_views_r true (hr_hist c))) repo ||
+               lo (spec_repo_steps ok pclash srcs a_empty (http_views_r false (hr_hist c))) repo;
      v_guards := [] |}.
 
 Record breal_case := { br_n : nat; br_rej : list cid; br_hist : list blob_event; br_obs : list rstep }.
-
-(** one key (0) per bucket: the buckets are the sources *)
-Fixpoint blob_real_steps (rej : list cid) (srcs : list sid) (n : nat) (s : bstates) (A : amap) (h : list blob_event) : list rstep :=
-  match h with
-  | [] => []
-  | bp :: rest =>
-    let b := fst bp in
-    let x := blob_watch (dyn_oracle rej A (bsid false b 0) srcs) true 1 b (s b) (snd bp) in
-    let s' := bst_set s b (h_st x) in
-    let A' := apply_calls A (h_calls x) in
-    {| r_calls := h_calls x; r_known := map (fun c => s' c 0) (seq 0 n); r_repo := map A' srcs |}
-      :: blob_real_steps rej srcs n s' A' rest
-  end.
 
 Definition check_breal (c : breal_case) : verdict :=
   let srcs := map (fun b => bsid false b 0) (seq 0 (br_n c)) in
   let lo := list_eqb (list_eqb (option_eqb Nat.eqb)) in
   let repo := map r_repo (br_obs c) in
-  {| v_corr := list_eqb rstep_eqb (blob_real_steps (br_rej c) srcs (br_n c) bst_empty a_empty (br_hist c)) (br_obs c);
-     v_prop := lo (spec_repo_steps (br_rej c) srcs a_empty (blob_views_r true 1 (br_hist c))) repo ||
-               lo (spec_repo_steps (br_rej c) srcs a_empty (blob_views_r false 1 (br_hist c))) repo;
+  let ok := ok_rej (br_rej c) in
+  (* the polls are those the theorem C18_blob_accept_all_histories is about (single key 0, no blob listed/named but absent) *)
+  {| v_corr := forallb (fun e => blob1_poll_ok (snd e)) (br_hist c) &&
+               list_eqb rstep_eqb (blob_real_steps ok pclash srcs (br_n c) bst_empty a_empty (br_hist c)) (br_obs c);
+     v_prop := lo (spec_repo_steps ok pclash srcs a_empty (blob_views_r true 1 (br_hist c))) repo ||
+               lo (spec_repo_steps ok pclash srcs a_empty (blob_views_r false 1 (br_hist c))) repo;
      v_guards := [] |}.
 
 Definition rs calls known repo := {| r_calls := calls; r_known := known; r_repo := repo |}.
